@@ -29,20 +29,32 @@ def jobs(unit, tier, only=None):
         unit.witness_size_type(L)
         unit.object_size(L, unit.scratch.dir)
         K = L + 3
-        for m in methods:
-            if not in_instance(m, L, tier):
-                continue
-            regs = [(f['id'], f['regions'][m.id]) for f in findings if m.id in f.get('regions', {})]
-            outside = ['!(%s)' % r for _, r in regs]
-            out.append(Job('c11_L%d_%s' % (L, m.id), 'FixedString<L>::' + m.call, 'cw_' + m.id,
-                           fs.make_build(unit, m, L, K, True, methods, outside), backend='sat',
-                           unwind=K + L + 4, timeout=600 if tier == 'quick' else 3000, instance={'L': L, 'K': K, 'excluded_regions': [r for r in outside]},
-                           bounded='source strings <= L+3 characters'))
-            for fid, r in regs:
-                out.append(Job('c11_L%d_%s@%s' % (L, m.id, fid), 'FixedString<L>::' + m.call, 'cw_' + m.id,
-                               fs.make_build(unit, m, L, K, True, methods, ['/*in*/ ' + r]), backend='sat',
-                               unwind=K + L + 4, timeout=600 if tier == 'quick' else 3000, instance={'L': L, 'K': K, 'inside_region': r},
-                               bounded='source strings <= L+3 characters', finding_region=fid))
+        for S2 in [None] + fs.cross_caps(L, tier):
+            if S2:
+                unit.object_size(S2, unit.scratch.dir)
+            tag = 'L%d' % L + ('x%d' % S2 if S2 else '')
+            for m in methods:
+                cross = getattr(m, 'cross', False)
+                if cross != bool(S2) or (cross and S2 == L and m.only_diff) or (not cross and not in_instance(m, L, tier)):
+                    continue
+                # a cross-capacity member shares the known findings of the std::string overload it is specified by
+                kid = getattr(m, 'kf_as', m.id)
+                regs = [(f['id'], f['regions'][kid]) for f in findings if kid in f.get('regions', {})]
+                outside = ['!(%s)' % r for _, r in regs]
+                inst = {'L': L, 'K': K}
+                if S2:
+                    inst['S2'] = S2
+                fn = 'FixedString<L>::' + getattr(m, 'disp', m.call)
+                bounded = None if cross else 'source strings <= L+3 characters'
+                out.append(Job('c11_%s_%s' % (tag, m.id), fn, 'cw_' + m.id,
+                               fs.make_build(unit, m, L, K, True, methods, outside, S2=S2), backend='sat',
+                               unwind=K + L + (S2 or 0) + 4, timeout=600 if tier == 'quick' else 3000, instance=dict(inst, excluded_regions=[r for r in outside]),
+                               bounded=bounded))
+                for fid, r in regs:
+                    out.append(Job('c11_%s_%s@%s' % (tag, m.id, fid), fn, 'cw_' + m.id,
+                                   fs.make_build(unit, m, L, K, True, methods, ['/*in*/ ' + r], S2=S2), backend='sat',
+                                   unwind=K + L + (S2 or 0) + 4, timeout=600 if tier == 'quick' else 3000, instance=dict(inst, inside_region=r),
+                                   bounded=bounded, finding_region=fid))
     if only:
         out = [j for j in out if only in j.name]
     return out
